@@ -83,4 +83,38 @@ def groups():
         F([A, B, a], hmul(A, rdiv(1, sadd(B, a))) == hdiv(A, sadd(B, a)), patterns=[hmul(A, rdiv(1, sadd(B, a)))]),
         F([A], nonneg(T.mf('clampmin', M, R, M)(A, 0)), patterns=[T.mf('clampmin', M, R, M)(A, 0)]),
     ]
+    # ---- element-level meaning of the indexing operations used by get_triu / fill_triu (C14), for n x n matrices:
+    # triuidx(n, n, off) lists the positions (i, j), i + off <= j, row-major; pos_off(n, i, j) is the place of (i, j)
+    gather2 = T.mf('gather2', M, M, M, M)
+    put2 = T.mf('put2', M, M, M, M, M)
+    row = T.mf('row', M, I, M)
+    triuidx = T.mf('triuidx', I, I, I, M)
+    allsum = T.mf('allsum', M, z3.ArraySort(I, z3.BoolSort()), M)
+    elem = T.mf('elem', M, I, I, R)
+    velem = T.mf('velem', M, I, R)
+    pos = z3.Function('m_tripos', I, I, I, I, I)       # (n, offset, i, j) -> index in the packed vector
+    n, i, j, k, off = z3.Ints('tn ti tj tk toff')
+    D, X, G_ = z3.Consts('tD tX tG', M)
+    gs = z3.Const('tgs', z3.ArraySort(I, z3.BoolSort()))
+
+    def RC(o):
+        return row(triuidx(n, n, o), 0), row(triuidx(n, n, o), 1)
+    ax = []
+    for o in (0, 1):
+        r_, c_ = RC(o)
+        inside = z3.And(i >= 0, i + o <= j, j < n)
+        ax += [
+            F([X, n, i, j], z3.Implies(inside, velem(gather2(X, r_, c_), pos(n, o, i, j)) == elem(X, i, j)),
+              patterns=[velem(gather2(X, r_, c_), pos(n, o, i, j))]),
+            F([D, X, n, i, j], elem(put2(D, r_, c_, X), i, j) == z3.If(inside, velem(X, pos(n, o, i, j)), elem(D, i, j)),
+              patterns=[elem(put2(D, r_, c_, X), i, j)]),
+        ]
+    ax += [
+        F([X, i, j], elem(tr(X), i, j) == elem(X, j, i), patterns=[elem(tr(X), i, j)]),
+        F([a, X, i, j], elem(smul(a, X), i, j) == a * elem(X, i, j), patterns=[elem(smul(a, X), i, j)]),
+        F([a, X, k], velem(smul(a, X), k) == a * velem(X, k), patterns=[velem(smul(a, X), k)]),
+        # an element-wise sum over ranks commutes with picking elements (every rank uses the same indices)
+        F([X, D, G_, gs], allsum(gather2(X, D, G_), gs) == gather2(allsum(X, gs), D, G_), patterns=[allsum(gather2(X, D, G_), gs)]),
+    ]
+    g['triu'] = ax
     return g, {'onecol': onecol, 'eye': eye, 'invertible': invertible, 'nonneg': nonneg}
